@@ -237,6 +237,7 @@ PROPS["C13"] = {
     "parts": [
         {"name": "regression", "kind": "plain", "test": "TestReplayDir"},
         {"name": "sweep", "kind": "plain", "test": "TestC13Sweep"},
+        {"name": "twin-histories", "kind": "plain", "test": "TestC13QRTwinHistories", "plain_shards": 8},
         {"name": "rapid", "kind": "rapid", "test": "TestC13Rapid", "checks": {"quick": 12000, "thorough": 600000}},
     ],
     "rule": "sweep: QR 40 versions x 4 levels x 3 modes x {capacity, previous capacity + 1} x {explicit mode, Auto}; DataMatrix 24 sizes x {capacity, capacity-1, previous "
@@ -344,3 +345,31 @@ PROPS["C16"] = {
 # native coverage-guided fuzzing, thorough tier only (wall-clock budget; see DESIGN.md section 2)
 for _pid, _secs in (("C01", 150), ("C02", 120), ("C03", 180), ("C04", 180), ("C05", 90), ("C10", 180)):
     PROPS[_pid]["parts"].append({"name": "native-fuzz", "kind": "fuzz", "test": "Fuzz" + _pid, "tiers": ("thorough",), "fuzztime": {"thorough": _secs}})
+
+# ---- additions to the rule texts (generator features added after the seeded-change waves)
+RULE_ADDENDA = {'C01': ' One rapid case in twelve is a boundary-seeking case: a growing content family prefix+fill(n)+suffix, the smallest n at which the returned symbol '
+        "outgrows a drawn version is found by bisection on the library's own answers, and the check runs on n-2..n+1 (the implementation's size transitions, "
+        'wherever they are).',
+ 'C02': " One rapid case in twenty is a boundary-seeking case (bisection on the library's own size answers for a growing content family; check on n-2..n+1).",
+ 'C03': " One rapid case in twenty is a boundary-seeking case (bisection on the library's own size answers for a growing payload family at a drawn percentage; "
+        'check on n-2..n+1).',
+ 'C04': " One rapid case in twenty is a boundary-seeking case (bisection on the library's own symbol area for a growing content family at a drawn level; check "
+        'on n-2..n+1).',
+ 'C06': ' One rapid case in five draws its digits from a palette of one or two values; the covering part also enumerates the periodic two-digit patterns '
+        'abab.. for all 100 (a,b) as 7/12 digits and as 8/13 digits with each last digit.',
+ 'C10': ' Boundaries also hold every homogeneous character class (incl. Aztec two-character PUNCT codes, lower case) at 40..150% of the largest Aztec symbol '
+        'and 30..97% of the PDF417 capacity of every level.',
+ 'C13': ' twin-histories: QR boundary pairs (each capacity / capacity+1 content of every (version, level, mode) with the cross-mode content of equal stream '
+        "length in bits and with the other modes' boundary contents of the same version), both orders, strictly sequential in 8 fresh processes; quick: "
+        'versions 1..14, every third above, and 40.',
+ 'C15': ' orders also: a rotating sample of the QR boundary pairs of C13 as two-call histories (fresh process running both against fresh processes running '
+        'each alone).',
+ 'C16': ' cold start also: first calls of every size class of every 2D symbology (40 QR versions, 24 DataMatrix sizes, 36 Aztec sizes, 9 PDF417 levels), all '
+        'at once and one class at a time (four calls of one class released together).',
+ 'C17': " Dividends also as exact multiples of the divisor (+ short remainder), operands equal up to one coefficient; results must be usable by the library's "
+        'own operations. Reed-Solomon data also chosen (linear system over the reference field) so that the check symbols have 1..4 leading / trailing / inner '
+        'zeros; histories may contain impossible requests (count > size-1 or negative) whose own outcome is not judged; every Encode under a 20 s watchdog.',
+ 'C18': ' Variadic appends also in structured patterns (all zero, ones-then-zeros, zeros-then-ones, single one, zero words) with word-multiple lengths; plus a '
+        'sweep of one variadic append of 32..4097 bits x 7 patterns from 31 start lengths.'}
+for _pid, _add in RULE_ADDENDA.items():
+    PROPS[_pid]["rule"] += _add
